@@ -66,7 +66,20 @@ def _iter_info(f, b, scc):
         t = b.term(x)
         if t and t["k"] == "call" and callee_is(t, "Iterator::next"):
             info.append((x, (t["callee"].get("targs") or ["?"])[0]))
+        h = _for_each_head(b, x)
+        if h is not None:
+            info.append((x, h))
     return info
+
+
+def _for_each_head(b, x):
+    """`it.for_each(|s| ..)` in a view: the head of the unfolded closure loop; for_each runs the closure for every element the
+    iterator yields, in the iterator's order, and nothing else - so the loop is the for loop over that iterator.  -> iterator type"""
+    blk = b.blocks[x]
+    if not str(blk.get("hof_head") or "").endswith("Iterator::for_each"):
+        return None
+    ct = b.term(blk["term"]["otherwise"])
+    return (ct["callee"].get("targs") or ["?"])[0] if ct and ct["k"] == "call" else None
 
 
 def entry_rules(ctx, f, b, cfg):
@@ -120,6 +133,8 @@ def entry_rules(ctx, f, b, cfg):
             t = b.term(src)
             if (b.term(dst) or {}).get("k") == "unreachable":
                 continue
+            if t["k"] == "switch" and _for_each_head(b, src) is not None and dst == t["otherwise"]:
+                continue          # for_each hands over to its continuation only when the iterator is exhausted
             if t["k"] == "switch":
                 at = Slicer(f, b).of_operand(t["op"])
                 none_edge = [tg for v, tg in t["targets"] if v == 0]
@@ -222,7 +237,7 @@ def entry_rules(ctx, f, b, cfg):
         wv.summarise_predicates = True
         pv = []
         for cb_ in chk_bbs:
-            its_ = {x for x, tt in b.calls() if callee_is(tt, "Iterator::next") and x in chk_scc}
+            its_ = {x for x, tt in b.calls() if callee_is(tt, "Iterator::next") and x in chk_scc} | {x for x in chk_scc if _for_each_head(b, x) is not None}
             pv += wv.walk(b.term(cb_)["target"], lambda bb, env: ("next",) if (bb in its_ or bb not in chk_scc) else None)
 
         def out_v(p, asg):
@@ -276,7 +291,8 @@ def entry_rules(ctx, f, b, cfg):
             return r
         w = D.Walker(f, b, cls, opaque_name=oname)
         w.summarise_predicates = True
-        start = b.term(its[0][0])["target"]
+        hof_loop = _for_each_head(b, its[0][0]) is not None
+        start = b.term(its[0][0])["targets"][0][1] if hof_loop else b.term(its[0][0])["target"]
         counts = {}
 
         def stop(bb, env):
@@ -293,7 +309,7 @@ def entry_rules(ctx, f, b, cfg):
             return "pass=%d,blocked=%d" % (n_pass, n_bl)
 
         def expected(asg):
-            if asg["disc"].get("iter") != 1:
+            if asg["disc"].get("iter") != 1 and not hof_loop:
                 return None
             be = asg["disc"].get("verdict.block_err")
             if be is not None:
